@@ -151,6 +151,10 @@ def read_text(
             blocks = [
                 delayed(attach_path)(entry, path) for entry, path in zip(blocks, paths)
             ]
+        if not blocks and raw_blocks:
+            # every file is empty (read_bytes skips empty files): one empty
+            # partition, like the blocksize=None path
+            blocks = [delayed(list)([])]
 
     if not blocks:
         raise ValueError("No files found", urlpath)
